@@ -19,7 +19,32 @@ _xdg = tempfile.mkdtemp(prefix="xdgcache_")
 env["XDG_CACHE_HOME"] = _xdg
 import atexit, shutil
 atexit.register(lambda: shutil.rmtree(_xdg, ignore_errors=True))
-p = subprocess.run(cmd, cwd=repo, env=env, stdout=subprocess.PIPE, stderr=subprocess.STDOUT, text=True)
+class _R:  # result holder
+
+
+    pass
+
+
+def _run_to_file(cmd_):
+    """run pytest with its output in a file, not a pipe: worker processes orphaned by a test (cf pools)
+    keep a pipe open for ever and subprocess.run would wait for its EOF long after pytest has exited"""
+    logf = tempfile.NamedTemporaryFile("w+", prefix="pytest_out_", suffix=".log", delete=False)
+    pr = subprocess.Popen(cmd_, cwd=repo, env=env, stdout=logf, stderr=subprocess.STDOUT, start_new_session=True)
+    rc = pr.wait()
+    # kill whatever the run left behind in its session
+    try:
+        os.killpg(pr.pid, 9)
+    except Exception:
+        pass
+    logf.flush()
+    r = _R()
+    r.returncode = rc
+    r.stdout = open(logf.name).read()
+    os.unlink(logf.name)
+    return r
+
+
+p = _run_to_file(cmd)
 tail = p.stdout.strip().splitlines()[-3:]
 passed = set()
 failed = set()
@@ -47,7 +72,7 @@ if missing and len(missing) <= 12 and "--no-retry" not in sys.argv:
     for m in missing:
         mod, name = m.split("::", 1)
         ids.append(mod.replace(".", "/") + ".py::" + name)
-    r2 = subprocess.run(["/venv/bin/python", "-m", "pytest", "-q", "-p", "no:cacheprovider", "--timeout=900", "--no-cov", "-rf", "-p", "no:randomly"] + ids, cwd=repo, env=env, stdout=subprocess.PIPE, stderr=subprocess.STDOUT, text=True)
+    r2 = _run_to_file(["/venv/bin/python", "-m", "pytest", "-q", "-p", "no:cacheprovider", "--timeout=900", "--no-cov", "-rf", "-p", "no:randomly"] + ids)
     still = set()
     for line in r2.stdout.splitlines():
         mm = re.match(r"FAILED (\S+?)::(\S+)", line)
